@@ -31,7 +31,6 @@ ASSUMPTIONS = [
     "mean-based transforms are applied to null-free columns only (a NaN mean legitimately nulls every row); poly/bs need >= 5 distinct non-null values",
     "raise combined with a caller drop set is judged by the property's wording: an error iff some evaluated factor has a null in "
     "any row, listed by the caller or not (the code does this; one sentence of the missing-data guide reads otherwise)",
-    "the narwhals materializer has no index concept: index labels are asserted for the pandas materializer only",
 ]
 
 FORMS_RAW = {  # formula -> referenced columns (those whose nulls matter)
@@ -43,6 +42,8 @@ FORMS_RAW = {  # formula -> referenced columns (those whose nulls matter)
     "scale(q):A + n": ["q", "A", "n"], "cr(p, df=3) + b": ["p", "b"], "T + x": ["T", "x"],
     # factors whose values come from the evaluation context (plain list / numpy array / pandas Series), rows dropped because of x
     "zl + x": ["x"], "za:x + A": ["x", "A"], "zs + x + y": ["x", "y"], "y ~ zl + x": ["y", "x"],
+    # text from the context: a numpy string array (no nulls) and an object array whose every 4th entry (1, 5, ..) is None
+    "C(zt) + x": ["x"], "C(zo):x + y": ["x", "y"],
 }
 CTX_FORMS = {"zl + x": "zl", "za:x + A": "za", "zs + x + y": "zs", "y ~ zl + x": "zl"}
 FORMS = FORMS_RAW
@@ -91,7 +92,7 @@ def gen_case(rng: random.Random, tier: str) -> dict:
         if na == "raise" and caller is not None and rng.random() < 0.6:
             # the caller lists exactly (or a superset of) the rows holding nulls: by the property's wording the
             # raise policy still errors, because an evaluated factor has a null
-            nulls = sorted({i for i in range(n) for c in FORMS[f] if col_values(frame, c)[i] is None})
+            nulls = sorted({i for i in range(n) for c in FORMS[f] if col_values(frame, c)[i] is None} | ({i for i in range(n) if i % 4 == 1} if "zo" in f else set()))
             caller = sorted(set(nulls) | (set(caller) if rng.random() < 0.5 else set()))
         mat = rng.choice(["pandas", "pandas", "pandas", "narwhals"])
         entry = rng.choice(["mm", "formula", "spec", "spec_over", "mat"])
@@ -106,7 +107,8 @@ def make_ctx(case):
 
     n = nrows(case["frame"])
     z = [100.0 + i for i in range(n)]
-    return {"zl": list(z), "za": np.array(z), "zs": pd.Series(z)}
+    return {"zl": list(z), "za": np.array(z), "zs": pd.Series(z), "zt": np.array(["k", "l", "m"] * n)[:n],
+            "zo": np.array([None if i % 4 == 1 else "pq"[i % 2] for i in range(n)], dtype=object)}
 
 
 def run(case, df, s):
@@ -134,7 +136,7 @@ def judge(case) -> Outcome:
     frame, f, na = case["frame"], case["formula"], case["na"]
     n = nrows(frame)
     cols = FORMS[f]
-    nullrows = sorted({i for i in range(n) for c in cols if is_null(col_values(frame, c)[i])})
+    nullrows = sorted({i for i in range(n) for c in cols if is_null(col_values(frame, c)[i])} | ({i for i in range(n) if i % 4 == 1} if "zo" in f else set()))
     caller = case["caller"]
     df = make_frame(frame)
     s = set(caller) if caller is not None else None
@@ -173,11 +175,15 @@ def judge(case) -> Outcome:
         if M.shape[0] != len(kept):
             out.fail("c06.row_count", f"{tag}: part with columns {colnames(p)[:3]} has {M.shape[0]} rows, expected {len(kept)} (kept positions {kept})")
             return out
-        if case["output"] == "pandas" and case["mat"] == "pandas":
+        if case["output"] == "pandas":
             got_ix, exp_ix = list(p.index), list(df.index[kept])
             if got_ix != exp_ix:
-                out.fail("c06.index_labels", f"{tag}: index {got_ix} expected {exp_ix}")
-                return out
+                if case["mat"] == "narwhals" and got_ix == list(range(len(kept))):
+                    # the narwhals materializer rebuilds the frame from bare columns (finding K6); rows and values are still checked
+                    out.fail("c06.narwhals_drops_index_labels", f"{tag}: pandas output through the narwhals materializer has index {got_ix[:4]}.., the data's labels are {exp_ix[:4]}..")
+                else:
+                    out.fail("c06.index_labels", f"{tag}: index {got_ix} expected {exp_ix}")
+                    return out
         if na == "drop" and np.isnan(M).any():
             out.fail("c06.null_survived", f"{tag}: NaN in the output although nulls are dropped")
             return out
@@ -202,7 +208,7 @@ def judge(case) -> Outcome:
         out.see("context_factor_checks")
         return out
     # values: the same specs on the pre-filtered data give the same matrices
-    if kept and na == "drop":
+    if kept and na == "drop" and "zt" not in f and "zo" not in f:
         try:
             with quiet():
                 ref = res.model_spec.get_model_matrix(df.iloc[kept])
